@@ -205,7 +205,7 @@ class Monitor:
             mon.stats["evaluations"] += 1
             mon.ev("evaluate", pdig(task.task_params))
             if n > 1:
-                mon.bad(f"task {task.key} evaluated {n} times for its isothermal value")
+                mon.stats["re_evaluations"] = mon.stats.get("re_evaluations", 0) + 1     # counted, not demanded: C04 asks for the order, not for once-only
             if task.key.is_shear:
                 mon.stats["shear_tasks"] += 1
                 tl = getattr(task, "_sim_list", None)
@@ -230,7 +230,7 @@ class Monitor:
                 params = T.PhononContributionTaskParams.create(*key)
             for p, v in res.data.items():
                 if p is params or (hash(p) == hash(params) and p == params):
-                    if not numpy.array_equal(v, val):
+                    if not numpy.array_equal(v, val, equal_nan=True):
                         mon.bad("a stored task result was stored again with different content")
             mon.ev("store", pdig(params))
             return orig_set(res, key, val)
@@ -242,7 +242,10 @@ class Monitor:
         def resolve(tl, strain, keys):
             mon.stats["resolves"] += 1
             out = orig_resolve(tl, strain, keys)
-            g = tl._graph
+            g = getattr(tl, "_graph", None)
+            if g is None or not hasattr(tl, "_tasks") or not hasattr(tl, "data"):
+                mon.stats["graph_checks_skipped"] = mon.stats.get("graph_checks_skipped", 0) + 1     # internals renamed: the structural checks are not available
+                return out
             mon.stats["max_tasks"] = max(mon.stats["max_tasks"], len(tl._tasks))
             mon.stats["edges"] += g.number_of_edges()
             if not nx.is_directed_acyclic_graph(g):
@@ -309,6 +312,15 @@ def _dev(a, b):
     if not fa.any():
         return 0.0
     return float(numpy.max(numpy.abs(a[fa] - b[fa])))
+
+
+_HERE = os.path.dirname(os.path.abspath(__file__))
+
+
+def _harness_exc(e):
+    """raised by the simulator's own code (monitor, comparison), not by cij or a library under it: never a verdict"""
+    tb = traceback.extract_tb(e.__traceback__)
+    return bool(tb) and tb[-1].filename.startswith(_HERE)
 
 
 class _Cancelled(BaseException):
@@ -451,6 +463,8 @@ def run_world(seed, tier, world=None, histories=None, relations=True):
             keys, iso, ad, tl = run_request(calc, strain_ref, [[k]])
             runs += 1
         except Exception as e:
+            if _harness_exc(e):
+                raise
             verdict("O-complete", f"singleton request [{k}] raised {type(e).__name__}: {str(e)[:150]}", history=[[k]])
             continue
         solo[k] = numpy.asarray(iso[keys[0]])
@@ -472,12 +486,16 @@ def run_world(seed, tier, world=None, histories=None, relations=True):
                 site = aborted_request(calc, strain, [[k] for k in arng.sample(ALL21, arng.choice([1, 3, 9, 21]))], int(10 ** arng.uniform(0, 3.7)))
                 aborted[site or "finished-before-the-cut"] = aborted.get(site or "finished-before-the-cut", 0) + 1
             except Exception as e:
+                if _harness_exc(e):
+                    raise
                 verdict("O-complete", f"a request that was to be cancelled raised {type(e).__name__}: {str(e)[:150]}")
             mon.violations = []
         try:
             keys, iso, ad, tl = run_request(calc, strain, h)
             runs += 1
         except Exception as e:
+            if _harness_exc(e):
+                raise
             verdict("O-complete", f"request history raised {type(e).__name__}: {str(e)[:150]} (a requested component received no value)", history=h)
             mon.violations = []
             continue
@@ -523,6 +541,8 @@ def run_world(seed, tier, world=None, histories=None, relations=True):
                         break
                 assembled += 1
         except Exception as e:
+            if _harness_exc(e):
+                raise
             verdict("O-complete", f"comparison with the calculator's own tensor raised {type(e).__name__}: {str(e)[:150]}")
     mon.violations = []
     # cancellation sweep: an earlier request cancelled at the FIRST execution of a distinct source line (seeded sample of the lines one full
@@ -552,6 +572,8 @@ def run_world(seed, tier, world=None, histories=None, relations=True):
                     break
             swept += 1
     except Exception as e:
+        if _harness_exc(e):
+            raise
         verdict("O-complete", f"request after a cancelled one raised {type(e).__name__}: {str(e)[:150]}")
     mon.violations = []
     # one task-list OBJECT re-used for a sequence of requests with alternating strain fields (a history on one object):
@@ -587,6 +609,8 @@ def run_world(seed, tier, world=None, histories=None, relations=True):
                     break
             reuse_checked += 1
     except Exception as e:
+        if _harness_exc(e):
+            raise
         verdict("O-complete", f"re-used task list raised {type(e).__name__}: {str(e)[:150]}")
     mon.violations = []
     # two task lists alive at once on one calculator, their steps (resolve / calculate / collect) interleaved in a seeded order:
@@ -633,6 +657,8 @@ def run_world(seed, tier, world=None, histories=None, relations=True):
                         break
                 interleaved_checked += 1
     except Exception as e:
+        if _harness_exc(e):
+            raise
         verdict("O-complete", f"interleaved task lists raised {type(e).__name__}: {str(e)[:150]}")
     mon.violations = []
     # ride-along relations (differential on the same machinery, not "simulation")
@@ -667,6 +693,8 @@ def run_world(seed, tier, world=None, histories=None, relations=True):
                     break
             rel["axis_perm_checked"] = 1
         except Exception as e:
+            if _harness_exc(e):
+                raise
             verdict("O-complete", f"relabelled request raised {type(e).__name__}: {str(e)[:150]}")
         mon.violations = []
     return {"verdicts": verdicts, "runs": runs, "stats": mon.stats, "event_digest": mon.digest(), "n_events": len(mon.events),
